@@ -205,7 +205,8 @@ ReadDT(fmt, t) ==
 (***************************************************************************)
 (* Construction of the name <-> tz map (zoneinfo._map_timezones): a fold   *)
 (* over the host's zone list; each entry either matches a still-unmapped   *)
-(* Haystack name exactly, or by its suffix after exactly one '/'.          *)
+(* Haystack name exactly, or by its suffix after exactly one '/'; names    *)
+(* with more '/' are looked at afterwards, by their last part.             *)
 (* acc = [map : set of <<haystack name, olson name>>, todo : set of names] *)
 (***************************************************************************)
 Slashes(s) == {i \in 1..Len(s) : s[i] = 47}
@@ -221,7 +222,18 @@ FoldStep(acc, full) ==
     ELSE acc
 RECURSIVE FoldFrom(_, _, _)
 FoldFrom(acc, all, i) == IF i > Len(all) THEN acc ELSE FoldFrom(FoldStep(acc, all[i]), all, i + 1)
-MapFold(all, hay) == FoldFrom([map |-> {}, todo |-> hay], all, 1)
+\* second pass (repaired in round 7: until then names with more than one '/' were skipped, and 18 official Haystack
+\* zones -- Knox, Marengo, ..., Ushuaia -- were never mapped): a tz database name with two or more '/'
+\* (America/Indiana/Knox) is the Haystack zone called like its last part, if that name is still unmapped.
+LastPart(full) == LET i == CHOOSE i \in Slashes(full) : \A j \in Slashes(full) : j <= i
+                  IN SubSeq(full, i + 1, Len(full))
+NestedStep(acc, full) ==
+    IF Cardinality(Slashes(full)) >= 2 /\ LastPart(full) \in acc.todo
+    THEN [map |-> acc.map \cup {<<LastPart(full), full>>}, todo |-> acc.todo \ {LastPart(full)}]
+    ELSE acc
+RECURSIVE NestedFrom(_, _, _)
+NestedFrom(acc, all, i) == IF i > Len(all) THEN acc ELSE NestedFrom(NestedStep(acc, all[i]), all, i + 1)
+MapFold(all, hay) == NestedFrom(FoldFrom([map |-> {}, todo |-> hay], all, 1), all, 1)
 
 Injective(m) == \A p \in m : \A q \in m : (p[1] = q[1]) <=> (p[2] = q[2])
 Inverse(m) == {<<p[2], p[1]>> : p \in m}
@@ -295,7 +307,9 @@ Init == /\ phase = "map" /\ mi = 1 /\ macc = [map |-> {}, todo |-> Haystack]
         /\ x = Null /\ text = <<>> /\ back = Null
 
 MapStep == /\ phase = "map" /\ mi <= Len(AllTz)
-           /\ macc' = FoldStep(macc, AllTz[mi])
+           \* ... and, after the last entry, the second pass over the names with more than one '/'
+           /\ macc' = IF mi = Len(AllTz) THEN NestedFrom(FoldStep(macc, AllTz[mi]), AllTz, 1)
+                      ELSE FoldStep(macc, AllTz[mi])
            /\ mi' = mi + 1
            /\ phase' = IF mi = Len(AllTz) THEN "idle" ELSE "map"
            /\ UNCHANGED <<x, text, back>>
